@@ -58,8 +58,9 @@ func (c *Ctx) callSites(fn *ssa.Function, re string) []site {
 			if !ok {
 				continue
 			}
-			d, _ := c.E1.callDesc(ins)
-			if r.MatchString(d) {
+			d, m := c.E1.callMatches(ins, re)
+			_ = r
+			if m {
 				out = append(out, site{Ins: ins, Call: ci.Common(), Desc: d, Block: b})
 			}
 		}
